@@ -19,6 +19,7 @@
     `Legacy.*` are the float branches of the pinned commit, kept so the defects are theorems.
 -/
 import Gozod.Model.Num
+import Gozod.Model.ParseInt
 namespace Gozod.Coerce
 open Gozod
 
@@ -39,6 +40,20 @@ structure StrInfo where
   hexPrefix : Bool            -- strings.HasPrefix(trim, "0x") || strings.HasPrefix(trim, "0X")
   pBig16 : Option Int         -- new(big.Int).SetString(trim[2:], 16)   (meaningful under hexPrefix)
   deriving Repr, Inhabited
+
+/-- The fields of a `StrInfo` that are no longer parameters: `strings.TrimSpace`,
+    `strconv.ParseInt(·,10,64)`, `big.Int.SetString(·,10)`, the `0x` prefix test and
+    `SetString(·[2:],16)` are the Lean functions of `Gozod.Model.ParseInt` applied to the bytes.
+    The driver builds every string source this way (`StrInfo.ofText`); what the harness ships for
+    these fields is only compared (op lines `P`).  ParseFloat / ToLower stay parameters. -/
+def StrInfo.ofText (bytes : List Nat) (norm : String) (pFloat pFloat32 : Option F) : StrInfo :=
+  let t := ParseInt.trimSpace bytes
+  { bytes := bytes, blank := t.isEmpty, norm := norm, pInt := ParseInt.parseInt t 64,
+    pFloat := pFloat, pFloat32 := pFloat32, pBig10 := ParseInt.parseBig t 10,
+    hexPrefix := ParseInt.hasHexPrefix t, pBig16 := ParseInt.parseBig (t.drop 2) 16 }
+
+/-- `s` is a string source whose text-derived fields are the computed ones. -/
+def StrInfo.computed (s : StrInfo) : Prop := s = StrInfo.ofText s.bytes s.norm s.pFloat s.pFloat32
 
 /-- A coercion source: the dynamic value after `reflectx.Deref` (one pointer level). -/
 inductive Src where
@@ -245,7 +260,7 @@ def toBool : Src → R Bool
 
 /-- ASCII bytes of the decimal numeral of `v` (`strconv.FormatInt/FormatUint(·, 10)`). -/
 def strBytes (s : String) : List Nat := s.toList.map (fun c => c.toNat)
-def decBytes (v : Int) : List Nat := strBytes (toString v)
+def decBytes (v : Int) : List Nat := ParseInt.formatInt v
 
 /-- `ToString`; `fmt32`/`fmt64` stand for `strconv.FormatFloat(x,'g',-1,32|64)`. -/
 def toStr (fmt32 fmt64 : F → List Nat) : Src → R (List Nat)
@@ -319,7 +334,19 @@ inductive Chk where
   | nochk
   | cmp (op : CmpOp) (b : Num)
   | minLen (n : Nat) | maxLen (n : Nat)
+  | cmpBig (op : CmpOp) (b : Int)     -- a BigInt schema's Gt/Gte/Lt/Lte with a `*big.Int` bound
   deriving Repr, Inhabited
+
+/-- The bound check of a BigInt schema: `checks.Gt(n)` is `validate.Gt(value, n)` with two
+    `*big.Int`; `toNum` holds neither, so `compareNumeric` sends both through `coerce.ToFloat64`
+    (`bigIntToFloat64`: the nearest float64, an error beyond MaxFloat64 — then the check is false)
+    and compares the floats. -/
+def bigCmpViaFloat (op : CmpOp) (v b : Int) : Bool :=
+  match finOrOverflow (bigToF64 v), finOrOverflow (bigToF64 b) with
+  | .ok x, .ok y => (match F.cmp x y with
+    | some o => op.ofOrdering o
+    | none => false)
+  | _, _ => false
 
 def Val.num (t : Tgt) : Val → Option Num
   | .int v => match t with
@@ -340,6 +367,9 @@ def Chk.holds (t : Tgt) (c : Chk) (v : Val) : Bool :=
   | .maxLen n => match v with
     | .str bs => decide (bs.length ≤ n)
     | _ => true
+  | .cmpBig op b => match t, v with
+    | .big, .int n => bigCmpViaFloat op n b
+    | _, _ => true
 
 /-- The non-coercing schema on a value that already has the schema's type. -/
 def parsePlain (t : Tgt) (c : Chk) (v : Val) : R Val :=
